@@ -410,6 +410,10 @@ type resumeInput struct {
 //     the uninterrupted run showed from that point on (a resumed run is the rest of the run);
 //   - scripts, transaction and previous output are as they were.
 func resumeFrames(p *interpgen.Program, maxFrames int) {
+	if sizeHazard(p) {
+		c.Tally("resume/skipped/num2bin-size-not-a-small-literal")
+		return
+	}
 	o := newOwnedRun(p, 0)
 	fk := &frameKeeper{}
 	check := o.watch(p)
@@ -482,6 +486,38 @@ func resumeFrames(p *interpgen.Program, maxFrames int) {
 	c.Case("", map[string]interface{}{"kind": "resume/" + p.Kind, "program": p}, "R"+key(p), resumed > 0)
 }
 
+// sizeHazard: after Genesis OP_NUM2BIN makes an item as long as its operand says (memory policy, not this property);
+// a debugger that keeps frames copies every item several times per step. Programs in which the size is not a small
+// literal right in front of the opcode are left to the families that run without keeping frames.
+func sizeHazard(p *interpgen.Program) bool {
+	if p.Flags&interpgen.FGenesis == 0 {
+		return false
+	}
+	for _, sc := range [][]byte{p.Unlock, p.Lock} {
+		small := false
+		for i := 0; i < len(sc); {
+			op := sc[i]
+			n := 1
+			switch {
+			case op >= 1 && op <= 75:
+				n = 1 + int(op)
+			case op == 0x4c && i+1 < len(sc):
+				n = 2 + int(sc[i+1])
+			case op == 0x4d && i+2 < len(sc):
+				n = 3 + (int(sc[i+1]) | int(sc[i+2])<<8)
+			case op == 0x4e:
+				return bytes.IndexByte(sc, 0x80) >= 0
+			}
+			if op == 0x80 && !small {
+				return true
+			}
+			small = op == 0 || (op >= 0x51 && op <= 0x60) || (op == 1 && i+1 < len(sc) && sc[i+1] < 0x80) || (op == 2 && i+2 < len(sc) && sc[i+2] == 0)
+			i += n
+		}
+	}
+	return false
+}
+
 func asInt(v interface{}) int {
 	if n, ok := v.(int); ok {
 		return n
@@ -529,8 +565,8 @@ func runResume(r *common.Rand) {
 		body := pv.code(x)
 		for k := 1 + r.Intn(4); k > 0; k-- {
 			body = cat(body, transforms[r.Intn(len(transforms))].code)
-			if r.Chance(50) {
-				body = cat(body, provenances[r.Intn(len(provenances))].code(x)[len(interpgen.Push(x)):])
+			if r.Chance(50) { // more twins of whatever is on top: DUP OVER 2DUP 3DUP TUCK IFDUP, 1 PICK, DUP TOALTSTACK, FROMALTSTACK, SWAP, ROT
+				body = cat(body, [][]byte{{0x76}, {0x78}, {0x6e}, {0x6f}, {0x7d}, {0x73}, {0x51, 0x79}, {0x76, 0x6b}, {0x6c}, {0x7c}, {0x7b}}[r.Intn(11)])
 			}
 		}
 		fl := uint32(0)
